@@ -10,6 +10,10 @@ theorem handle_workers (s : St) (c : Cmd) : (handle s c).workers = s.workers := 
   cases c <;> simp only [handle, emit]
   split <;> rfl
 
+theorem handle_wakeFirst (s : St) (c : Cmd) : (handle s c).wakeFirst = s.wakeFirst := by
+  cases c <;> simp only [handle, emit]
+  split <;> rfl
+
 theorem handle_log (s : St) (c : Cmd) : ∃ evs, (handle s c).log = s.log ++ evs := by
   cases c with
   | pause a => exact ⟨_, rfl⟩
@@ -54,6 +58,17 @@ theorem runLoop_workers (cs : List Cmd) : ∀ (s : St), (runLoop s cs).workers =
       · exact handle_workers s c
       · rw [ih, handle_workers]
 
+theorem runLoop_wakeFirst (cs : List Cmd) : ∀ (s : St), (runLoop s cs).wakeFirst = s.wakeFirst := by
+  induction cs with
+  | nil => intro s; rfl
+  | cons c cs ih =>
+    intro s; simp only [runLoop]
+    split
+    · exact handle_wakeFirst s c
+    · split
+      · exact handle_wakeFirst s c
+      · rw [ih, handle_wakeFirst]
+
 /-- commands that are not `Stop` (and name known workers) leave the loop running -/
 theorem runLoop_pre (pre : List Cmd) : ∀ (s : St), s.stopping = false → s.panicked = false →
     (∀ c ∈ pre, c.isStop = false) → (∀ c ∈ pre, ∀ idx, c = .workerFaulted idx → idx ∈ s.workers) →
@@ -79,11 +94,12 @@ theorem runLoop_stop_shape (s : St) (pre post : List Cmd) (g : Bool) (comp : Opt
     (h4 : ∀ c ∈ pre, ∀ idx, c = .workerFaulted idx → idx ∈ s.workers) :
     (runLoop s (pre ++ .stop g comp :: post)).returned = true ∧
     (runLoop s (pre ++ .stop g comp :: post)).log =
-      (runLoop s pre).log ++ stopEvs s.workers g comp ++ droppedAcks post ++ [.returned] := by
+      (runLoop s pre).log ++ stopEvs s.wakeFirst s.workers g comp ++ droppedAcks post ++ [.returned] := by
   obtain ⟨a, b, _, d⟩ := runLoop_pre pre s h1 h2 h3 h4
   rw [d]
   have hw := runLoop_workers pre s
-  simp only [runLoop, handle, emit, b, Bool.false_eq_true, if_false, if_true, hw]
+  have hwf := runLoop_wakeFirst pre s
+  simp only [runLoop, handle, emit, b, Bool.false_eq_true, if_false, if_true, hw, hwf]
   refine ⟨?_, ?_⟩ <;> simp
 
 theorem mem_droppedAcks {cs : List Cmd} {c : Cmd} {a : Nat} (h : c ∈ cs) (ha : c.ack? = some a) : Ev.ackDropped a ∈ droppedAcks cs := by
